@@ -172,8 +172,8 @@ class C10(Property):
             "set_default) over declared and undeclared keys, on a Dict or SparseDict (minimum_fields None/'required') "
             "with 1-3 fields (Integer/String/List/Dict, optional or not, with defaults); non-trivial = at least 3 calls "
             "changed the mapping or raised")
-    quick_n = 2500
-    thorough_n = 120000
+    quick_n = 40000
+    thorough_n = 300000
 
     def __init__(self):
         self._cache = (None, None)
